@@ -81,7 +81,7 @@ def finish(out: Outcome, tier: str, seed: int, t0: float) -> int:
     for sig, v in seen_known.items():
         print(f"KNOWN-FINDING: property={out.property_id} {sig} -- {open_sigs[sig].get('what', v.what)}")
     rdir = (Path(os.environ["VERIF_OUT_DIR"]) if os.environ.get("VERIF_OUT_DIR") else ROOT) / "replays"
-    rdir.mkdir(exist_ok=True)
+    rdir.mkdir(parents=True, exist_ok=True)
     reported = set()
     for v in new:
         if v.signature in reported:
@@ -115,7 +115,7 @@ def finish(out: Outcome, tier: str, seed: int, t0: float) -> int:
         "violations": len(reported),
     }
     edir = (Path(os.environ["VERIF_OUT_DIR"]) if os.environ.get("VERIF_OUT_DIR") else ROOT) / "evidence"
-    edir.mkdir(exist_ok=True)
+    edir.mkdir(parents=True, exist_ok=True)
     (edir / f"{out.property_id}.json").write_text(json.dumps(ev, indent=1, default=_jsonable) + "\n")
     if reported:
         return 1
